@@ -2667,9 +2667,10 @@ let cfg_equiv e c1 c2 =
   (&&)
     ((&&)
       ((&&)
-        ((&&) (cmds_eqb c1.c_ctl c2.c_ctl) (kont_eqb c1.c_kont c2.c_kont))
-        (tmap_eqb c1.c_st.tape c2.c_st.tape)) (Z.eqb c1.c_st.ptr c2.c_st.ptr))
-    (Nat.eqb (eff_in_pos e c1.c_st) (eff_in_pos e c2.c_st))
+        ((&&) (Z.eqb c1.c_st.ptr c2.c_st.ptr)
+          (Nat.eqb (eff_in_pos e c1.c_st) (eff_in_pos e c2.c_st)))
+        (cmds_eqb c1.c_ctl c2.c_ctl)) (kont_eqb c1.c_kont c2.c_kont))
+    (tmap_eqb c1.c_st.tape c2.c_st.tape)
 
 (** val bf_cfg_after : z -> env -> nat -> bfcfg -> bfcfg option **)
 
